@@ -11,7 +11,6 @@ const US_PER_MINUTE: u128 = 60 * US_PER_SECOND;
 const US_PER_HOUR: u128 = 60 * US_PER_MINUTE;
 const US_PER_DAY: u128 = 24 * US_PER_HOUR;
 const US_PER_WEEK: u128 = 7 * US_PER_DAY;
-const MAX_FRACTION_DENOMINATOR: u128 = 1_000_000_000_000_000_000_000_000;
 
 #[derive(Debug, Clone)]
 pub struct ParseError {
@@ -804,20 +803,31 @@ impl<'a> Parser<'a> {
         Ok(())
     }
 
-    /// Adds the decimal fraction `numerator / denominator` of a unit (given in
-    /// microseconds) to the duration, rounded half to even to the microsecond.
+    /// Adds the decimal fraction `0.digits` of a unit (given in microseconds)
+    /// to the duration, rounded half to even to the microsecond.
+    /// The product is computed digit by digit, so that it is exact whatever
+    /// the number of digits.
     fn add_fraction(
         &mut self,
         duration: &mut ParsedDuration,
-        fraction: (u128, u128),
+        digits: Vec<u8>,
         unit: u128,
     ) -> Result<(), ParseError> {
-        let (numerator, denominator) = fraction;
-        let total = numerator * unit;
-        let mut us = total / denominator;
-        let remainder = total % denominator;
+        // Fractional decimal digits of `digits * unit`, least significant first
+        let mut fractional: Vec<u8> = Vec::with_capacity(digits.len());
+        let mut carry = 0_u128;
 
-        if remainder * 2 > denominator || remainder * 2 == denominator && us % 2 == 1 {
+        for digit in digits.iter().rev() {
+            let current = u128::from(*digit) * unit + carry;
+            fractional.push((current % 10) as u8);
+            carry = current / 10;
+        }
+
+        let mut us = carry;
+        let first = fractional.pop().unwrap_or(0);
+        let beyond_half = fractional.iter().any(|digit| *digit != 0);
+
+        if first > 5 || first == 5 && (beyond_half || us % 2 == 1) {
             us += 1;
         }
 
@@ -846,30 +856,16 @@ impl<'a> Parser<'a> {
         Ok(())
     }
 
-    fn parse_duration_number_frac(&mut self) -> Result<(u32, Option<(u128, u128)>), ParseError> {
+    fn parse_duration_number_frac(&mut self) -> Result<(u32, Option<Vec<u8>>), ParseError> {
         let value = self.parse_duration_number()?;
         let fraction = matches!(self.current, '.' | ',').then(|| {
-            let mut numerator = 0_u128;
-            let mut denominator = 1_u128;
-            let mut sticky = false;
+            let mut digits: Vec<u8> = Vec::new();
 
             while let Some(digit) = self.inc().and_then(|ch| ch.to_digit(10)) {
-                // Digits beyond the 24th can only decide an exact tie:
-                // it is enough to remember whether one of them is not zero
-                if denominator < MAX_FRACTION_DENOMINATOR {
-                    numerator = numerator * 10 + u128::from(digit);
-                    denominator *= 10;
-                } else if digit != 0 {
-                    sticky = true;
-                }
+                digits.push(digit as u8);
             }
 
-            if sticky {
-                numerator = numerator * 10 + 1;
-                denominator *= 10;
-            }
-
-            (numerator, denominator)
+            digits
         });
 
         Ok((value, fraction))
